@@ -63,14 +63,61 @@ def specialTypes : List Str :=
    "call_webhook", "transfer_airtime", "no_op", "go_to", "hard_exit", "loose_exit",
    "insert_as_block"].map String.toList
 
-/-- an action row that stands for itself: no given node identifier or node name (no merging), the
-action the compiler attaches is the one the documentation describes, every edge unconditional -/
+/-- an action row that stands for itself: no given node identifier or node name (no merging), and
+the action the compiler attaches is the one the documentation describes -/
 def plainActionRow (c : CRow) : Bool :=
   !specialTypes.contains c.row.type && c.row.nodeUuid.isEmpty && c.row.nodeName.isEmpty &&
-  decide (c.row.action = c.refAct) && c.row.edges.all (fun e => e.cond.blank)
+  decide (c.row.action = c.refAct)
 
-/-- fragment F1: action rows joined by unconditional edges (explicit `from` row ids, blank `from`,
-`start`): chains, trees, joins; the last edge leaving a row wins -/
-def inFragment (rows : List CRow) : Bool := rows.all plainActionRow
+def switchTypes : List Str := ["wait_for_response", "split_by_value", "split_by_group"].map String.toList
+
+/-- a deciding row (`wait_for_response`, `split_by_value`, `split_by_group`) that stands for itself;
+such a row performs no action -/
+def switchRow (c : CRow) : Bool :=
+  switchTypes.contains c.row.type && c.row.nodeUuid.isEmpty && c.row.nodeName.isEmpty && c.refAct.isNone
+
+def rowOk (c : CRow) : Bool := plainActionRow c || switchRow c
+
+def isNR (c : RefFlow.Cond) : Bool := RefFlow.lower c.value = "no response".toList
+
+/-- the edges leaving a row are read with one meaning only: an action row is left unconditionally;
+a condition on an edge leaving a `wait_for_response` row names no variable (the operand stays the
+reply) and no category; a condition leaving a split row is not the reserved "no response" and names
+no category -/
+def edgeOk (rows : List CRow) (e : RefFlow.OutEdge) : Bool :=
+  e.cond.blank ||
+  match (rows[e.src]?).map (fun c => kindOf c.row.type) with
+  | some .wait => e.cond.var.isEmpty && e.cond.name.isEmpty
+  | some .splitValue => !isNR e.cond && e.cond.name.isEmpty
+  | some .splitGroup => !isNR e.cond && e.cond.name.isEmpty
+  | _ => false
+
+/-- the test a conditional edge leaving a row of kind `k` stands for -/
+def refTest (k : RefFlow.Kind) (c : RefFlow.Cond) : Str × List Str :=
+  if k = .splitGroup then ("has_group".toList, [[], c.value]) else RefFlow.condTest c
+
+/-- the conditional out-edges of a row of kind `k` that are tests -/
+def testsOf (k : RefFlow.Kind) (es : List RefFlow.OutEdge) : List RefFlow.OutEdge :=
+  (es.filter (fun e => !e.cond.blank)).filter (fun e => !(decide (k = .wait) && isNR e.cond))
+
+/-- the tests leaving one row are pairwise different (DESIGN §5 C02: a repeated test would be read as
+"same case, new destination" by the compiler and as a second, unreachable test by the rows) -/
+def distinctTests (rows : List CRow) (out : List RefFlow.OutEdge) : Bool :=
+  (List.range rows.length).all fun j =>
+    match rows[j]? with
+    | some c => decide (((testsOf (kindOf c.row.type) (out.filter (·.src = j))).map
+        (fun e => refTest (kindOf c.row.type) e.cond)).Nodup)
+    | none => true
+
+/-- fragment F2: action rows and deciding rows (`wait_for_response` with or without timeout,
+`split_by_value`, `split_by_group`), any number of edges per row with explicit `from` row ids, blank
+`from` or `start` — chains, trees, joins, last-edge-wins defaults, tests appended in row order,
+"No Response" branches — under the single-meaning conditions `edgeOk` and `distinctTests`, which
+are read off the edges the reference interpretation resolves -/
+def inFragment (rows : List CRow) : Bool :=
+  rows.all rowOk &&
+  match RefFlow.pass1 (rows.map toRRow) with
+  | .ok out => out.all (edgeOk rows) && distinctTests rows out
+  | .error _ => true
 
 end Rpft.CoreSheet
